@@ -30,6 +30,8 @@ pub enum Container {
     A32,
     S32,
     V32HT,
+    /// the 2D + fixed height and epoch adaptor wrapped in a fixed epoch adaptor
+    V2HTT,
 }
 
 pub const ALL_CONTAINERS: &[Container] = &[
@@ -49,6 +51,7 @@ pub const ALL_CONTAINERS: &[Container] = &[
     Container::A32,
     Container::S32,
     Container::V32HT,
+    Container::V2HTT,
 ];
 
 type Bits = [u64; 4];
@@ -198,6 +201,8 @@ fn effective(container: &Container, c: [f64; 4], h: f64, t: f64) -> [f64; 4] {
         V3T => [c[0], c[1], c[2], t],
         V2 | A2 | S2 => [c[0], c[1], 0.0, f64::NAN],
         V2HT => [c[0], c[1], h, t],
+        // the outer adaptor keeps the inner one's height and replaces its epoch
+        V2HTT => [c[0], c[1], h, t + 1.0],
         V32 | A32 | S32 => [f32r(c[0]), f32r(c[1]), 0.0, f64::NAN],
         V32HT => [f32r(c[0]), f32r(c[1]), h, t],
     }
@@ -211,7 +216,7 @@ fn project(container: &Container, r: [f64; 4]) -> [Option<f64>; 4] {
         // the adapter overrides the fourth dimension on every read, so what the inner
         // vector keeps there is not a dimension the presentation stores
         V4T | V3 | A3 | S3 | V3T => [Some(r[0]), Some(r[1]), Some(r[2]), None],
-        V2 | A2 | S2 | V2HT => [Some(r[0]), Some(r[1]), None, None],
+        V2 | A2 | S2 | V2HT | V2HTT => [Some(r[0]), Some(r[1]), None, None],
         V32 | A32 | S32 | V32HT => [Some(f32r(r[0])), Some(f32r(r[1])), None, None],
     }
 }
@@ -352,6 +357,11 @@ fn present(
             let mut set = (d2, h, t);
             let n = apply(&mut set)?;
             (all2(&set.0), n)
+        }
+        V2HTT => {
+            let mut set = ((d2, h, t), t + 1.0);
+            let n = apply(&mut set)?;
+            (all2(&set.0 .0), n)
         }
         V32 => {
             let mut v = d32;
@@ -643,7 +653,7 @@ impl Engine for ChunkSim {
                     events.push(gen_noise(&mut rng, &def, plain, domain));
                 }
                 let inv = if both_dirs { rng.chance(0.5) } else { main_inv };
-                let container = if container_mix && idx.len() <= 64 {
+                let container = if container_mix && (idx.len() <= 64 || rng.chance(0.15)) {
                     rng.pick(ALL_CONTAINERS).clone()
                 } else {
                     Container::V4
